@@ -147,10 +147,10 @@ func VerifHarness_C09() {
 }
 
 // VerifHarness_C10: the no-delete annotation protects from removal only.
-// shape: [nodes, pods, band (0 low: scale-down path, 2 idle: reaper path)]
+// shape: [nodes, pods, band (0 low: scale-down path, 2 idle: reaper path), failure budget]
 func VerifHarness_C10() {
-	N, P, band := verifShape(0), verifShape(1), verifShape(2)
-	w := newWorld(0)
+	N, P, band, F := verifShape(0), verifShape(1), verifShape(2), verifShape(3)
+	w := newWorld(F)
 	o := groupOpts(0)
 	gm := graceMenus[verifChoice("grace", 2)]
 	o.SoftDeleteGracePeriod, o.HardDeleteGracePeriod = gm.soft, gm.hard
@@ -202,7 +202,9 @@ func VerifHarness_C10() {
 			// an eligible node is removed even when a sibling is annotated
 			ageNs := (w.base+cs-n.taintTs)*1000000000 + cn
 			eligible := verifOr(verifAnd(n.groupPods == 0, ageNs > soft), ageNs > hard)
-			verifAssert("C10.eligible-node-still-removed", verifImplies(verifAnd(reaper, eligible), removed[i]))
+			if F == 0 {
+				verifAssert("C10.eligible-node-still-removed", verifImplies(verifAnd(reaper, eligible), removed[i]))
+			}
 			if n.annotKey {
 				verifReachIf("C10.empty-annotation-unprotected", verifAnd(reaper, eligible))
 			}
@@ -214,7 +216,7 @@ func VerifHarness_C10() {
 		}
 	}
 	// annotated nodes count toward capacity and can be tainted like any other
-	if band == 0 {
+	if band == 0 && F == 0 {
 		normal := verifAnd(s.untainted > 0, clearlyBelow(100*s.cpuReq, int64(o.TaintLowerCapacityThresholdPercent)*s.cpuCap))
 		verifAssert("C10.annotated-still-tainted", verifImplies(normal, int64(j.taintAttempts) == imin(1, s.untainted)))
 		for k := mark; k < len(w.J.Calls); k++ {
